@@ -1,4 +1,5 @@
 import EdpVerif.Drv.Common
+import EdpVerif.Impl.EncodeEntry
 namespace Edp.Drv
 open Edp
 
@@ -31,6 +32,14 @@ def handleEtf : List String → Option String
     let t ← getTerm t
     let d ← getTerm d
     if t.den == d.den then pure "ok" else pure ("FAIL den=" ++ t.den.text ++ " decoded=" ++ d.den.text)
+  -- C01: `encode_to_writer` into a writer that already holds `w`; `acc` = 1 when the writer accepts the bytes
+  | ["c01w", t, w, acc] => some <| run do
+    let t ← getTerm t
+    let w ← getHex w
+    match encodeToWriter t w (acc == "1") with
+    | .ok out => pure ("ok " ++ hexOf out)
+    | .error (.enc _) => pure "err"
+    | .error .io => pure "io"
   | _ => none
 
 end Edp.Drv
